@@ -538,6 +538,10 @@ def run_lifecycle(sc):
             return []               # never answered: in flight at close
         if 'close-session' in req and sc.get('no_close_reply'):
             return []               # a server that does not answer <close-session>
+        if 'close-session' in req and sc.get('close_error'):
+            # RFC 6241 7.8 allows a negative response; the client side is released all the same
+            return [('send', '<rpc-reply message-id="%s" xmlns="%s"><rpc-error><error-type>application</error-type><error-tag>operation-failed</error-tag>'
+                     '<error-severity>error</error-severity><error-message>close refused</error-message></rpc-error></rpc-reply>' % (FS.msg_id_of(req), FS.BASE_NS))]
         return [('send', FS.ok_reply(FS.msg_id_of(req)))]
     srv = make_server(sc, handler)
     calls = {'n': 0, 'after_close': 0, 'closed': False}
@@ -583,6 +587,14 @@ def run_lifecycle(sc):
             m.async_mode = False
             m.timeout = 1.0
             time.sleep(0.4)
+        if sc.get('backlog'):
+            # notifications nobody takes (a subscription whose consumer is slow or absent) pile up before the session is closed
+            data = b''.join(srv.frame(notif_text(i + 1)) for i in range(sc['backlog']))
+            bt = threading.Thread(target=lambda: srv.do_actions([('raw', data)]), daemon=True)
+            bt.start()
+            bt.join(5)
+            time.sleep(0.5)
+            m.timeout = 2.0
         how = sc.get('how', 'close_session')
         if sc.get('no_close_reply'):
             m.timeout = 0.5
@@ -867,6 +879,114 @@ def run_stderr(case):
     except Exception as e:
         res['failed'].append(['connect', exc_name(e)])
         res['server_requests'] = len(srv.requests)
+        return res
+    finally:
+        try:
+            if m is not None:
+                m._session.close()
+        except Exception:
+            pass
+        srv.cleanup()
+
+
+@connect_restoring_ids
+def run_trickle(case):
+    """A synchronous request (timeout case['sync_timeout']) to a server that, for case['for'] seconds, sends a notification every 0.15 s or
+    the reply in small pieces, completing nothing in time.  Observed: how long the call takes."""
+    stop = threading.Event()
+
+    def handler(srv, req):
+        mid = FS.msg_id_of(req)
+
+        def feed():
+            t_end = time.time() + case['for']
+            if case['what'] == 'notifications':
+                k = 0
+                while time.time() < t_end and not stop.is_set() and not srv.closed:
+                    k += 1
+                    srv.do_actions([('send', notif_text(k))])
+                    time.sleep(0.15)
+            else:
+                data = srv.frame('<rpc-reply message-id="%s" xmlns="%s"><data>%s</data></rpc-reply>' % (mid, FS.BASE_NS, 'x' * 4000))
+                n = max(1, int(len(data) / (case['for'] / 0.1)))
+                for i in range(0, len(data), n):
+                    if stop.is_set() or srv.closed:
+                        break
+                    srv.do_actions([('raw', data[i:i + n])])
+                    time.sleep(0.1)
+        threading.Thread(target=feed, daemon=True).start()
+        return []
+    sc = {'transport': case['transport'], 'server_caps': [c for c in FS.STD_CAPS if case['base11'] or c != FS.B11]}
+    srv = make_server(sc, handler)
+    res = {'connect': None}
+    m = None
+    try:
+        try:
+            m = connect(srv, sc, timeout=5)
+        except Exception as e:
+            res['connect'] = 'exc:' + exc_name(e)
+            return res
+        res['connect'] = 'ok'
+        m.timeout = case['sync_timeout']
+
+        def call():
+            try:
+                m.get()
+                return 'reply'
+            except Exception as e:
+                return exc_name(e)
+        st, out, dt = FS.run_with_timeout(call, case['sync_timeout'] + case['for'] + 3)
+        res.update({'state': st, 'out': out, 'dt': dt})
+        return res
+    finally:
+        stop.set()
+        try:
+            if m is not None:
+                m._session.close()
+        except Exception:
+            pass
+        srv.cleanup()
+
+
+@connect_restoring_ids
+def run_stray(sc):
+    """One synchronous request answered normally, then ONE asynchronous request outstanding while the server sends an <rpc-reply> that is
+    not its answer (sc['stray']: 'no-id' | 'unknown-id' | 'duplicate' of the first reply), then the real answer."""
+    seen = []
+
+    def handler(srv, req):
+        mid = FS.msg_id_of(req)
+        seen.append(mid)
+        if len(seen) == 1:
+            return [('send', '<rpc-reply message-id="%s" xmlns="%s"><data><n>first</n></data></rpc-reply>' % (mid, FS.BASE_NS))]
+        stray = {'no-id': '<rpc-reply xmlns="%s"><data><n>stray</n></data></rpc-reply>' % FS.BASE_NS,
+                 'unknown-id': '<rpc-reply message-id="urn:uuid:00000000-1111-2222-3333-444444444444" xmlns="%s"><data><n>stray</n></data></rpc-reply>' % FS.BASE_NS,
+                 'duplicate': '<rpc-reply message-id="%s" xmlns="%s"><data><n>first</n></data></rpc-reply>' % (seen[0], FS.BASE_NS)}[sc['stray']]
+        return [('send', stray), ('sleep', 0.2), ('send', '<rpc-reply message-id="%s" xmlns="%s"><data><n>second</n></data></rpc-reply>' % (mid, FS.BASE_NS))]
+    srv = make_server(sc, handler)
+    res = {'connect': None}
+    m = None
+    try:
+        try:
+            m = connect(srv, sc, timeout=5)
+        except Exception as e:
+            res['connect'] = 'exc:' + exc_name(e)
+            return res
+        res['connect'] = 'ok'
+        m.timeout = 3
+        m.get()
+        m.async_mode = True
+        r = m.get()
+        r.event.wait(3)
+        time.sleep(0.4)
+        if r.error is not None:
+            res['second'] = ['exc', exc_name(r.error)]
+        elif r.reply is None:
+            res['second'] = ['none']
+        else:
+            x = reply_text(r.reply)
+            res['second'] = ['reply', FS.msg_id_of(x), 'second' in x]
+        res['own_id'] = seen[1] if len(seen) > 1 else None
         return res
     finally:
         try:
